@@ -358,7 +358,7 @@ pub fn specs() -> Vec<CheckSpec> {
             runs_quick: 80_000,
             runs_thorough: 1_500_000,
             rule: "simulations of the built-in agents in the manual loop, one update call per agent group at a time; the harness reads the instruction queue (verification hook) and the order list before and after every update and checks every created order and every cancellation (grid, range, side of the observed mid-price, volume, trader id, ownership, active when looked at), the deterministic corners of the activity rules (probability 0 / >= 1) and that nothing aborts; generator fault injection (boundary draws 0, all-ones, 1, top bit at sparse indices); tick 1..10, heavy-tailed price distributions (sigma up to 10), empty / one-sided / two-sided starting books, 1..200 steps. Non-trivial = at least 3 agent orders checked",
-            finalize: None,
+            finalize: Some(crate::w4agents::finalize_bern),
             preflight: None,
             nontrivial: nt_c16,
             real: REAL_AGENTS,
@@ -373,7 +373,7 @@ pub fn specs() -> Vec<CheckSpec> {
             runs_quick: 100_000,
             runs_thorough: 1_500_000,
             rule: "one momentum agent group (single- and multi-asset) under mid-price paths imposed by a harness quoting client (rising, falling, mixed, flat; half-tick mids); the harness recomputes M and demand*tanh(scale*M)/n from the mids it observed; direction of every order must follow the sign of M, nothing when M = 0; at saturated demand (|p| >= 1) exactly n market (and, when order_ratio*|p| >= 1, n limit) orders on that side; mirrored run (path mirrored about a grid level, same seed, market orders only) must swap buys and sells step by step. Non-trivial = steps with positive and with negative momentum",
-            finalize: None,
+            finalize: Some(crate::w4agents::finalize_bern),
             preflight: None,
             nontrivial: nt_c17,
             real: REAL_AGENTS,
